@@ -150,6 +150,14 @@ theorem no_mode_rotation_syncs_closed_file_witness :
     (durable .v2 Driver.crc32 a.rot.w.store).map (·.ts) = [1] ∧ Call.sync 1 true ∈ a.rot.w.trace := by
   decide +kernel
 
+/-- EverySecond / No: every `write_durable` caller is answered exactly once, at once, in order -/
+theorem policy_acks_exactly_once (p : Policy) (hp : p ≠ .always) (φ : Nat → Outcome) (fmt : Format) (crc : Bytes → Nat)
+    (maxSize : Nat) (evs : List Ev) :
+    (Actor.runP p φ fmt crc maxSize evs).pending = [] ∧
+    (Actor.runP p φ fmt crc maxSize evs).acks.map (·.id) = (evs.flatMap Ev.ids).reverse := by
+  have := runP_now_ids p hp φ fmt crc evs (Actor.init maxSize) rfl
+  simpa [Actor.runP, Actor.init] using this
+
 /-! ## the schedule of the real loop, `Shutdown` messages included -/
 
 /-- bursts of mailbox messages handled at the top of the loop / inside the group-commit wait / in the
